@@ -18,7 +18,7 @@
     [Wrapper.Spec.unit_ok]).  The executable instance with exact rational square roots is [Wrapper.Corr.unit_exact].
 
     Python exceptions: ValueError -> EValue, IndexError -> EIndex, TypeError -> EType,
-    MissingExtensionError -> EMissingExt, nibabel HeaderDataError -> EHeaderData.  No proofs here. *)
+    MissingExtensionError -> EMissingExt.  No proofs here. *)
 From Coq Require Import List Bool Arith ZArith QArith Qabs Lia.
 From DV Require Import Common.Res Common.Str Ext.Types Ext.Seq Ext.Model Orient.Model.
 Import ListNotations.
@@ -128,8 +128,6 @@ Definition resolve_merge_dim (sh : list nat) (odim : option nat) : res nat :=
 Definition merge_slice (first : option nat) (rest : list (option nat)) : option nat :=
   fold_left (fun cur s => if onat_eqb s cur then cur else None) rest first.
 
-Definition has_slice (s : option nat) : bool := match s with Some _ => true | None => false end.
-
 Section WithUnit.
   (** [v / np.sqrt(np.dot(v, v))] *)
   Variable unitv : vec -> vec.
@@ -195,11 +193,8 @@ Section WithUnit.
                    | _ => Err EIndex                         (* seq[1] *)
                    end
                  else Ok A0);
-        let sl := merge_slice (islice im0) (map islice (tl ims)) in
-        (* hdr_info['slice_duration'] survives (0.0 everywhere) iff every input has a slice dim; it is then
-           written into the result header, which nibabel refuses when the merged slice dim was erased *)
-        if forallb (fun im => has_slice (islice im)) ims && negb (has_slice sl) then Err EHeaderData
-        else Ok (mk_img rsh (merged_data ims rsh dim) A sl)
+        (* the slice duration is written only when the merged slice dim survives (fix e012efc / F17): no error here *)
+        Ok (mk_img rsh (merged_data ims rsh dim) A (merge_slice (islice im0) (map islice (tl ims))))
     end.
 
   Definition from_sequence_img (ims : list img) (odim : option nat) : res img :=
